@@ -39,7 +39,14 @@ func callTx(ctx sdk.Context, fn func(ctx sdk.Context) error) (res string, errTex
 }
 
 func bigAmount(r *rand.Rand) math.Int {
-	switch r.Intn(6) {
+	switch r.Intn(8) {
+	case 6:
+		// between 2^40 and 2^63: amounts that still fit a machine word while amount x elapsed blocks does not
+		return math.NewInt(r.Int63n(1 << 62)).AddRaw(1 << uint(41+r.Intn(21)))
+	case 7:
+		// at the edges of the 64-bit range, and where amount x (a small number of blocks) crosses it
+		edge := []int64{1<<63 - 1, 1 << 62, (1<<63 - 1) / 10, (1<<63-1)/40 + 1, (1<<63-1)/60 + 1, (1<<63 - 1) / 7}[r.Intn(6)]
+		return math.NewInt(edge).SubRaw(int64(r.Intn(3)))
 	case 0:
 		return math.NewInt(int64(1 + r.Intn(20)))
 	case 1:
